@@ -329,9 +329,9 @@ package block
 //@                       || NumPending(m.pendingData.base) >= m.config.Node.MaxPendingHeadersAndData)
 
 //@ func (m *Manager) publishBlockInternal(ctx) (err)
-//@   property C01:-taken-batch-kept
-//@   property C11:taken-batch-kept,stored-block-kept
-//@   property C04:kind:crash,kind:frame,height,state,inv-state,inv-tip,inv-genesis,inv-no-future,signs-own-block,signed,link,committed-valid,stored-block-kept,-taken-batch-kept
+//@   property C01:-taken-batch-kept,-time-check-is-before,-taken-batch-kept-unless-earlier
+//@   property C11:taken-batch-kept,stored-block-kept,time-check-is-before,taken-batch-kept-unless-earlier,saved-before-executed
+//@   property C04:kind:crash,kind:frame,height,state,inv-state,inv-tip,inv-genesis,inv-no-future,signs-own-block,signed,link,committed-valid,stored-block-kept,saved-before-executed,-taken-batch-kept
 //@   property C08:refuse,no-refuse
 //@   requires [wiring] m.metrics != nil && m.headerCache != nil && m.pendingHeaders != nil && m.pendingHeaders.base != nil && m.pendingData != nil && m.pendingData.base != nil
 //@                       && m.store != nil && m.pendingHeaders.base.store == m.store && m.pendingData.base.store == m.store && m.daHeight != nil
@@ -341,6 +341,10 @@ package block
 //@   observe sh := call SetHeight
 //@   observe ghs := call getHeaderSignature
 //@   observe vl := call Validate
+//@   observe bf := call Before
+//@   observe cbk := call createBlock
+//@   observe sbd1 := call SaveBlockData@1
+//@   observe apb := call applyBlock
 //@   modifies m.lastState, m.lastBatchData, m.headerCache.seen,
 //@            durable m.store.height, durable m.store.stateAt, durable m.store.hasState, durable m.store.meta["l"], durable m.store.metaHas["l"],
 //@            durable m.store.has[m.store.height + 1], durable m.store.hdrAt[m.store.height + 1], durable m.store.hsigAt[m.store.height + 1],
@@ -384,6 +388,15 @@ package block
 //@   ensures [inv-genesis] !m.store.faulty ==> InvGenesis(m)
 // C11: a batch that has been taken from the sequencer (which has durably removed it from its queue)
 // is in the stored block at the next height whenever the step ends or the node crashes
+// C11: the only reason to give a taken batch up for its timestamp is that it lies before the last block's time - a
+// batch stamped with that very time is built into a block (the clause below is the listed finding without its
+// listed cases: earlier timestamp, failed block creation, storage fault)
+//@   ensures [time-check-is-before] rb && rb.res1 == nil ==> bf.count == 1
+//@   ensures [taken-batch-kept-unless-earlier] rb && rb.res1 == nil && bf.count == 1 && !bf.res0 && !(cbk && cbk.res2 != nil) && !m.store.faulty
+//@                       ==> m.store.has[old(m.store.height) + 1] && m.store.txsAt[old(m.store.height) + 1] == TxsId(rb.res0.Batch.Transactions)
+// C04/C11: a new block is in the store before it is executed - the executor commits the block's effects to its own
+// database, and a crash after that commit must find the block (and with it the taken batch) on restart
+//@   ensures [saved-before-executed] apb ==> old(m.store.has[m.store.height + 1]) || (sbd1 && sbd1.seq < apb.seq)
 //@   ensures [taken-batch-kept] rb && rb.res1 == nil ==> m.store.has[old(m.store.height) + 1] && m.store.txsAt[old(m.store.height) + 1] == TxsId(rb.res0.Batch.Transactions)
 //@   crash_inv [taken-batch-kept] rb && rb.res1 == nil ==> m.store.has[old(m.store.height) + 1] && m.store.txsAt[old(m.store.height) + 1] == TxsId(rb.res0.Batch.Transactions)
 //@   crash_inv [height-not-ahead] m.store.hasState && m.store.height <= m.store.stateAt.lastBlockHeight
@@ -434,7 +447,7 @@ package block
 //@ pred SyncInv(m) := InvState(m) && m.store.height < 18446744073709551615
 
 //@ func (m *Manager) trySyncNextBlock(ctx, daHeight) (err)
-//@   property C02:kind:inv-establish,kind:inv-preserve,kind:pre,kind:frame,monotone,progress,inv,inv-on-success,scan-start-kept,gives-up-only-for-cause
+//@   property C02:kind:inv-establish,kind:inv-preserve,kind:pre,kind:frame,monotone,progress,inv,inv-on-success,scan-start-kept,gives-up-only-for-cause,verifier-installed
 //@   property C03:no-halt,validated
 //@   property C07:scan-start-kept
 //@   property C09:scan-start-kept
@@ -442,6 +455,7 @@ package block
 //@   requires [wiring] m.metrics != nil && m.headerCache != nil && m.dataCache != nil && m.store != nil
 //@   requires [inv] SyncInv(m)
 //@   observe val := call Validate
+//@   observe scv := call SetCustomVerifier
 //@   observe sbd := call SaveBlockData
 //@   observe shh := call SetHeight
 //@   modifies m.lastState, m.headerCache.itemAt, m.headerCache.seen, m.dataCache.itemAt, m.dataCache.seen,
@@ -456,6 +470,9 @@ package block
 // know which DA heights still have events that were not consumed, so it must not move that height
 // (it stays at the configured start: a restart rescans, duplicates are dropped by the seen-sets).
 //@   loop 1 invariant [scan-start-kept] m.lastState.DAHeight == old(m.lastState.DAHeight)
+// the header is validated with the chain's signature payload provider installed in this very step: a header that
+// waited in the cache (across a restart: the provider is not part of its stored form) must not fall back to the default
+//@   loop 1 invariant [verifier-installed] val.count == 1 ==> scv.count == 1 && scv.seq < val.seq && scv.arg0 == val.arg2
 //@   loop 1 invariant [validated] sbd ==> val && val.res0 == nil && val.arg2 == sbd.arg2 && val.arg3 == sbd.arg3
 //@   loop 1 invariant [height-is-header] shh ==> sbd && shh.arg2 == sbd.arg2.BaseHeader.Height && m.store.height == shh.arg2
 //@   ensures [monotone] m.store.height >= old(m.store.height)
@@ -538,7 +555,7 @@ package block
 //@   ensures [any] true
 
 //@ func (m *Manager) produceBlock(ctx, mode, lazyTimer, blockTimer) (err)
-//@   property C17
+//@   property C17 C08:timers-armed,timers-reset
 //@   requires [timers] lazyTimer != nil && blockTimer != nil && lazyTimer != blockTimer
 //@   observe tn := call Now@1
 //@   observe pb := call publishBlock
@@ -558,7 +575,7 @@ package block
 //@   ensures [lazy-timer-within-lazy-interval] err == nil ==> lazyTimer.resetTo > 0 && lazyTimer.resetTo <= max(m.config.Node.LazyBlockInterval.Duration, 1000000)
 
 //@ func (m *Manager) lazyAggregationLoop(ctx, blockTimer) (err)
-//@   property C17
+//@   property C17 C08:wakes-up-again
 //@   requires [timer] blockTimer != nil
 //@   observe pbk := call produceBlock
 //@   observe rst := call Reset
@@ -600,7 +617,12 @@ package block
 //@   requires [wiring] m.store != nil && m.logger != nil
 //@   observe lz := call lazyAggregationLoop
 //@   observe nm := call normalAggregationLoop
+//@   observe slp := call Sleep
+//@   observe unt := call Until
 //@   modifies m.txsAvailable, heap "model:Timer.resetTo", heap "model:Timer.armed"
+// the first slot is awaited before either loop starts (both loops begin with timers that fire at once): a node
+// restarted within a block interval of its last block does not produce the next one early
+//@   ensures [first-slot-awaited] (lz || nm) && unt && unt.res0 > 0 ==> slp.count == 1 && slp.arg0 == unt.res0 && (lz ==> slp.seq < lz.seq) && (nm ==> slp.seq < nm.seq)
 //@   ensures [one-loop] lz.count + nm.count <= 1
 //@   ensures [mode] (lz ==> m.config.Node.LazyMode) && (nm ==> !m.config.Node.LazyMode)
 //@   ensures [error-reported] (lz && lz.res0 != nil) || (nm && nm.res0 != nil) ==> sendCount("errCh") == 1
@@ -676,7 +698,7 @@ package block
 // on a chain that starts now - no state, no submission watermarks - nothing counts as waiting for DA
 // submission, whatever the initial height is.
 //@ func NewManager(ctx, signer, config, genesis, store, exec, sequencer, da, logger, headerStore, dataStore, headerBroadcaster, dataBroadcaster, seqMetrics, gasPrice, gasMultiplier, managerOpts) (m, err)
-//@   property C04:height-is-state,height-never-lowered,fails-only-for-cause C05:height-is-state,height-never-lowered,fails-only-for-cause C06:nothing-pending-on-fresh-chain,watermarks-only-raised,watermarks-exact C07:da-included-restored,da-included-zero-on-fresh-chain C08:nothing-pending-on-fresh-chain C17:notification-remembered C09:scan-starts-at-recorded-height C02:scan-starts-at-recorded-height
+//@   property C04:height-is-state,height-never-lowered,fails-only-for-cause C05:height-is-state,height-never-lowered,fails-only-for-cause,scan-starts-at-recorded-height C06:nothing-pending-on-fresh-chain,watermarks-only-raised,watermarks-exact C07:da-included-restored,da-included-zero-on-fresh-chain C08:nothing-pending-on-fresh-chain C17:notification-remembered C09:scan-starts-at-recorded-height C02:scan-starts-at-recorded-height
 //@   requires [wiring] store != nil && exec != nil && logger != nil
 //@   requires [genesis] genesis.InitialHeight >= 1
 //@   requires [height-range] store.height < 18446744073709551615
